@@ -77,6 +77,9 @@ struct Observed {
 }
 
 fn run(ctx: &mut Ctx) -> Verdict {
+    if let Some(i) = ctx.enum_index {
+        return super::c19_proc::run(ctx, i);
+    }
     crate::ssim::quiet_panics();
     let plan = gen_plan(ctx);
     ev!(ctx, "plan period={}s attempts={:?} signals={:?}", plan.period, plan.attempts, plan.signals);
@@ -235,16 +238,18 @@ pub static C19: PropSpec = PropSpec {
     simulator: "A-sim",
     level: "exploration",
     runs: |t| if t == Tier::Thorough { 2_000_000 } else { 15_000 },
-    enumerated: |_| 0,
+    enumerated: |t| super::c19_proc::scenarios(t == Tier::Thorough),
     run,
-    rule: "the real Loop::start with a period from {1 s .. 1 day} (below and above the 60 s initial back-off); 2-10 (thorough: 2-16) scripted connection attempts (succeed against FakeJunos / fail at connect / rpc-error or disconnect at a seeded request) with job durations 0 .. 3 periods of virtual time; 0-3 SIGHUPs and a final SIGINT or SIGTERM raised (libc::raise) at seeded virtual instants, while waiting and while a job runs. Oracle over the timeline of connection attempts and job ends: first run at once; after success one period; after the c-th consecutive failure a delay of 60 s first, never shrinking, growing while below the cap, never above max(60 s, period), never zero without SIGHUP; SIGHUP while waiting => run at that instant; SIGINT/SIGTERM while waiting => clean exit at that instant, no later attempt. Non-trivial = at least three attempts; distinct = distinct event-log hash",
+    rule: "enumerated (process part): the agent executable (argument parsing, real signal handlers, real clock) with -f {0, 1, 45, 100, 3600, 86400} against a closed loopback port; -f 0 must make exactly one attempt, not start the loop and exit by itself with a failure status; a daemon must run its first job at once, announce 60 s first and then delays that never shrink, grow while below max(60 s, period) and never exceed it (2-4 failing jobs, each further one started by a real SIGHUP within 10 s), and exit with status 0 within 10 s of a real SIGTERM / SIGINT. seeded: the real Loop::start with a period from {1 s .. 1 day} (below and above the 60 s initial back-off); 2-10 (thorough: 2-16) scripted connection attempts (succeed against FakeJunos / fail at connect / rpc-error or disconnect at a seeded request) with job durations 0 .. 3 periods of virtual time; 0-3 SIGHUPs and a final SIGINT or SIGTERM raised (libc::raise) at seeded virtual instants, while waiting and while a job runs. Oracle over the timeline of connection attempts and job ends: first run at once; after success one period; after the c-th consecutive failure a delay of 60 s first, never shrinking, growing while below the cap, never above max(60 s, period), never zero without SIGHUP; SIGHUP while waiting => run at that instant; SIGINT/SIGTERM while waiting => clean exit at that instant, no later attempt. Non-trivial = at least three attempts; distinct = distinct event-log hash",
     components: &[
+        ("agent executable: bin/bgpfu-junos-agent.rs, cli.rs (Frequency parsing, one-shot / daemon selection), task.rs loop with tokio's real signal handlers and the real clock", "real, enumerated scenarios only: target/release/agentbin as a child process"),
         ("junos-agent task.rs (Loop::start, Updater::run), netconf/mod.rs", "real"),
         ("tokio runtime, interval timer, Unix signal driver", "real (current_thread, paused clock)"),
         ("Unix signals", "real: libc::raise on the simulation thread at virtual instants"),
         ("netconf transport / router / IRRd", "stub + models (FakeJunos with scripted attempt outcomes, FakeIrrd)"),
     ],
-    assumptions: &["the k-th signal is raised at k+1 (mod 10) ms of virtual time while every other delay is a multiple of 10 ms, so that a signal never coincides with a timer deadline or with another signal", "nothing is demanded about the moment at which a signal that arrives while a job is running takes effect (only that the daemon exits cleanly in the end)", "job end = the instant of the connection refusal, of the delivery of the first negative reply or EOF, or of the delivery of the positive close-session reply"],
+    assumptions: &[
+        "process part: the only timing assumption is that the agent reacts to a signal or finishes a refused connection attempt within 10 s of real time","the k-th signal is raised at k+1 (mod 10) ms of virtual time while every other delay is a multiple of 10 ms, so that a signal never coincides with a timer deadline or with another signal", "nothing is demanded about the moment at which a signal that arrives while a job is running takes effect (only that the daemon exits cleanly in the end)", "job end = the instant of the connection refusal, of the delivery of the first negative reply or EOF, or of the delivery of the positive close-session reply"],
     watchdog_s: 60,
     stuck_is_verdict: false,
     serial: true,
